@@ -371,6 +371,24 @@ impl<'a, 'tcx> Ctx<'a, 'tcx> {
 
     fn const_val(&self, cv: ConstValue, t: Ty<'tcx>, c: &mut J) {
         use rustc_middle::mir::interpret::Scalar;
+        // &[u8] / &str constants (possibly behind an indirection)
+        if let ty::Ref(_, inner, _) = t.kind() {
+            let is_bytes = match inner.kind() {
+                ty::Slice(et) => *et == self.tcx.types.u8,
+                ty::Str => true,
+                _ => false,
+            };
+            if is_bytes && matches!(cv, ConstValue::Slice { .. } | ConstValue::Indirect { .. }) {
+                if let Some(bytes) = cv.try_get_slice_bytes_for_diagnostics(self.tcx) {
+                    let mut s = String::new();
+                    for b in bytes {
+                        s.push_str(&format!("{:02x}", b));
+                    }
+                    c.put("bytes", J::s(s));
+                    return;
+                }
+            }
+        }
         match cv {
             ConstValue::Scalar(Scalar::Int(si)) => {
                 if t.is_bool() {
